@@ -20,11 +20,11 @@ PY
 )
 rsync -a --exclude RUN.md --exclude '*.log' "$d/demo/" "$R/"
 echo "demo_cmd: $cmd"
-sh -c "$cmd" > /tmp/confirm_before.log 2>&1; b=$?
+sh -c "$cmd" > $R.before.log 2>&1; b=$?
 git apply "$d/patch.diff" || { echo "patch does not apply"; exit 2; }
-sh -c "$cmd" > /tmp/confirm_after.log 2>&1; a=$?
+sh -c "$cmd" > $R.after.log 2>&1; a=$?
 echo "demo: before rc=$b after rc=$a"
-grep -h "test result\|panicked\|FAILED\|VIOLATION" /tmp/confirm_after.log | head -5
+grep -h "test result\|panicked\|FAILED\|VIOLATION" $R.after.log | head -5
 if [ $suite = 1 ]; then
   # remove the demo so that the suite is the repository's own
   git clean -qfd
